@@ -11,12 +11,19 @@ def run(R, tier, seed, only=None):
     k = 2 if tier == "quick" else 3
     fam = families.family_c03(tier, seed)
     to = 20000 if tier == "quick" else 120000
-    for target in ("sql.sqlite", "sql.generic"):
+    for target in (("sql.sqlite", "sql.generic") if only in (None, "symdb") else ()):
         jobs = [("c_prog", f"{target}:{tag}", prog, {"k": k, "timeout_ms": to, "target": target}) for tag, prog in fam]
         propcheck.run_family(R, drv, jobs, f"ordered pipelines/{target}")
+    if only in (None, "kernels"):
+        import kchecks
+        d = core.Driver(drv)
+        kchecks.check_take(R, d, tier, want=("position",))
+        kchecks.check_lit(R, d, tier)
+        d.close()
+        R.cov.setdefault("kernel_bounds", {}).update({"K-take": "k <= 2 (quick) / 3 (thorough) consecutive takes, bounds any i64 >= 1 or absent, positions 1 <= p < 2^62", "K-lit": "every i64"})
     R.cov["bounds"] = {"rows_per_table": k, "value_range": "|v| <= 2^20", "targets": ["sql.sqlite", "sql.generic"], "family": families.family_c03.__doc__ or "ordered pipelines"}
     R.cov["functions_encoded"] = ["prqlc::compile per program; emitted SQL encoded by engines/symdb/sqlsem.py (binder + bag/sequence semantics)"]
-    R.cov["trusted_base"] = propcheck.TRUSTED
+    R.cov["trusted_base"] = propcheck.TRUSTED + ["rustc nightly MIR front end", "engines/mirsym (MIR interpreter + std models)"]
     R.cov["outside_bounds"] = ["ties and NULLs in sort / positional window keys", "take without a sort in effect", "text/float/date data", "other dialects", "longer pipelines"]
     R.assumptions += propcheck.COMMON_ASSUMPTIONS
 
